@@ -86,7 +86,7 @@ CHECKS['C09'] = dict(text='STRUCTURAL PART ONLY. For the portable sub-families t
              note=TRUST_M + 'Trusted: the lexical map in props/c09.py and the equivalence of the documented substitutions themselves.',
              technique='symbolic execution of rustc MIR on three backends per path, token-level comparison after a lexical map, term identity of bound values', ref='6/C09', engine=ENGINE_M)
 CHECKS['C14'] = dict(text='Bounded symbolic execution of the MySQL and Postgres schema builders (prepare_table_create_statement, prepare_column_def / type / spec, prepare_table_alter_statement, index and foreign-key builders): the engine chooses the column type among all variants of the dialect '
-                  '(lengths / precisions / scales are symbolic numbers), every duplicate-free specification sequence of length <= 2 (3 thorough), table-level indexes / foreign keys / checks / options, ALTER option sequences of length <= 2 (3), CREATE INDEX and foreign-key variants; '
+                  '(lengths / precisions / scales are symbolic numbers), every duplicate-free specification sequence of length <= 2 (3 thorough), table-level indexes / foreign keys / checks / options, ALTER option sequences of length <= 2, CREATE INDEX and foreign-key variants; '
                   'on every path a DDL recogniser of the dialect must accept the text and recover exactly the declared elements in order, the type name must be the dialect type of the abstract type (synonyms accepted) with parameters preserved by term identity and unsigned-ness preserved.',
              note=TRUST_M + 'Oracle: props/ddlskel.py (DDL grammars and type tables from the MySQL 8.0 / PostgreSQL 16 manuals). Postgres type / extension statements and DROP / RENAME / TRUNCATE are checked on the concrete corpus only. Known findings: inline plain index on Postgres, MySQL Interval type.',
              technique='symbolic execution of rustc MIR (type / specification / option forking, symbolic type parameters) with a reference DDL recogniser deciding each path', ref='6/C14', engine=ENGINE_M)
